@@ -701,6 +701,24 @@ fn c15_build(cfg: &[u16]) -> Built {
     if s.chance(60) {
         rank_setup(&mut s, "#c1", users, &mut setup);
     }
+    // a channel from the configuration: the ranks it grants belong to the configured nicknames,
+    // they do not follow a user who changes nick
+    if s.chance(50) {
+        c.channels.push(ChanSpec {
+            name: "#pre0".into(),
+            flags: "n".into(),
+            operators: vec!["n1".into(), "n5".into()],
+            voices: vec!["n2".into(), "N0".into()],
+            founders: vec!["n3".into()],
+            ..Default::default()
+        });
+        prof.chans.push("#pre0".into());
+        for i in 1..users {
+            if s.chance(60) {
+                setup.push((format!("n{}", i), "JOIN #pre0".into()));
+            }
+        }
+    }
     setup.push(("n0".into(), "JOIN #c2".into()));
     setup.push(("n0".into(), "MODE #c2 +i".into()));
     for i in 1..users {
@@ -869,6 +887,146 @@ fn c16_nontrivial(t: &Trace) -> Option<String> {
     }
 }
 
+// ------------------------------------------------------------------------------------- C20 (sessions on a TOML-loaded configuration)
+// Same kind of sessions as C16, but the configuration is rich in everything an administrator
+// writes into the file (channels with overlapping rank lists, keys, limits, masks; operators with
+// masks; quota; default user modes) and - see c20.rs - the server state is built from the TOML
+// text, not from the in-memory structure.
+fn c20g_build(cfg: &[u16]) -> Built {
+    let mut s = S::new(cfg);
+    s.raw();
+    let users = 3 + s.pick(3);
+    let mut c = CfgSpec::default();
+    c.max_joins = [None, Some(1), Some(2), Some(3), Some(10)][s.pick(5)];
+    c.default_modes = ["", "", "i", "w", "iw", "O", "o", "r", "rw"][s.pick(9)].to_string();
+    c.motd = ["Hello, world!", "motd with : colon", "x"][s.pick(3)].to_string();
+    let mut prof = Profile::base().with(&[
+        (K::Join, 34),
+        (K::Part, 10),
+        (K::Kick, 6),
+        (K::Oper, 10),
+        (K::NewUser, 10),
+        (K::ModeChan, 8),
+        (K::Topic, 6),
+        (K::List, 4),
+        (K::Lusers, 2),
+        (K::Nick, 6),
+        (K::Privmsg, 6),
+        (K::Drop, 4),
+        (K::Contend, 5),
+        (K::RegLine, 8),
+        (K::RawConnect, 2),
+    ]);
+    // [[users]]: who logs in under a configured name (and only who does) is a registered user
+    if s.chance(60) {
+        let pw = if s.chance(40) { Some("userpass".to_string()) } else { None };
+        c.users.push(crate::cfgspec::UserSpec {
+            name: "cfgu".into(),
+            nick: "cfgnick".into(),
+            password: pw.clone(),
+            mask: [None, None, Some("*!*@10.0.0.*".to_string()), Some("*!*@10.0.0.2".to_string())][s.pick(4)].clone(),
+        });
+        prof.reg_usernames.push("cfgu".into());
+        if pw.is_some() {
+            prof.reg_passwords = vec!["userpass".into(), "userpass".into(), "wrongpass".into()];
+        }
+    }
+    for i in 0..(1 + s.pick(2)) {
+        let mask = match s.pick(4) {
+            0 => Some("*!*@10.0.0.*".to_string()),
+            1 => Some(format!("*!*@10.0.0.{}", 1 + s.pick(4))),
+            2 => Some("*!*@192.168.*".to_string()),
+            _ => None,
+        };
+        let name = format!("op{}", i);
+        let pw = format!("operpw{}", i);
+        c.opers.push(OperSpec { name: name.clone(), password: pw.clone(), mask });
+        prof.oper_names.push((name, pw));
+    }
+    let npre = 1 + s.pick(3);
+    for i in 0..npre {
+        let name = ["#pre0", "&pre1", "#pre2"][i % 3].to_string();
+        let mut ch = ChanSpec { name: name.clone(), ..Default::default() };
+        if s.chance(60) {
+            ch.topic = Some(["Welcome", "a:b topic", "two words", "\u{e9}\u{65e5}"][s.pick(4)].to_string());
+        }
+        for f in ['i', 'm', 's', 't', 'n'] {
+            if s.chance(if f == 'i' { 15 } else { 30 }) {
+                ch.flags.push(f);
+            }
+        }
+        if s.chance(30) {
+            ch.key = Some(["k1", "k2"][s.pick(2)].into());
+        }
+        if s.chance(30) {
+            ch.limit = Some(s.pick(4));
+        }
+        for _ in 0..s.pick(3) {
+            ch.ban.push(derive_mask(&src_of(s.pick(4)), &mut s));
+        }
+        if s.chance(30) {
+            ch.except.push(derive_mask(&src_of(s.pick(4)), &mut s));
+        }
+        if s.chance(30) {
+            ch.invex.push(derive_mask(&src_of(s.pick(4)), &mut s));
+        }
+        // rank lists that overlap: the same nick in several lists gets all of them
+        for n in 0..5 {
+            let nick = format!("n{}", n);
+            let bits = if s.chance(45) { s.pick(32) } else { 0 };
+            if bits & 1 != 0 {
+                ch.founders.push(nick.clone());
+            }
+            if bits & 2 != 0 {
+                ch.protecteds.push(nick.clone());
+            }
+            if bits & 4 != 0 {
+                ch.operators.push(nick.clone());
+            }
+            if bits & 8 != 0 {
+                ch.half_operators.push(nick.clone());
+            }
+            if bits & 16 != 0 {
+                ch.voices.push(nick.clone());
+            }
+        }
+        if s.chance(30) {
+            ch.operators.push("ghost".into());
+        }
+        prof.chans.push(name);
+        c.channels.push(ch);
+    }
+    Built { cfg: c, prof, prelude_users: users, setup: vec![] }
+}
+
+fn c20g_owns(d: &Disc, out: &StepOut, t: &Trace) -> bool {
+    if matches!(d, Disc::Framing { .. } | Disc::Malformed { .. }) {
+        return false;
+    }
+    c16_owns(d, out, t) || ["JOIN", "OPER", "NEWUSER", "PRELUDE", "LIST", "TOPIC", "PRIVMSG", "REGLINE", "CONNECT"].contains(&out.ctx.as_str()) || out.is_probe
+}
+
+fn c20g_nontrivial(t: &Trace) -> Option<String> {
+    let pre = t.tags.iter().filter(|x| x.starts_with("join:accept") || x.starts_with("join:refused")).count();
+    let oper = t.tags.iter().any(|x| x.starts_with("oper:"));
+    if pre >= 2 {
+        Some(format!("j{}o{}", pre.min(6), oper as u8))
+    } else {
+        None
+    }
+}
+
+pub const C20G: MbSpec = MbSpec {
+    id: "C20",
+    ncfg: 64,
+    max_ops: 24,
+    build: c20g_build,
+    owns: c20g_owns,
+    probe_level: 1,
+    nontrivial: c20g_nontrivial,
+    extra: None,
+};
+
 pub const C16: MbSpec = MbSpec {
     id: "C16",
     ncfg: 64,
@@ -1021,7 +1179,7 @@ fn c02_owns(d: &Disc, out: &StepOut, _t: &Trace) -> bool {
                 // connection that is not registered
                 return reg_ctx;
             }
-            reg_ctx && ["001", "433", "451", "462", "303", "311", "318", "353", "352", "319", "251", "255", "265", "266", "302", "401", "CAP"].contains(&line[1].as_str())
+            reg_ctx && ["001", "221", "433", "451", "462", "303", "311", "318", "353", "352", "319", "251", "255", "265", "266", "302", "401", "CAP"].contains(&line[1].as_str())
         }
         _ => reg_ctx,
     }
@@ -1119,7 +1277,8 @@ fn c03_build(cfg: &[u16]) -> Built {
     s.raw();
     let (c, pw, un) = c03_config(s.pick(8));
     let mut prof = Profile::base().with(&[
-        (K::RegLine, 70),
+        (K::RegLine, 64),
+        (K::Contend, 8),
         (K::RawConnect, 6),
         (K::DropUnreg, 5),
         (K::Privmsg, 4),
